@@ -1,6 +1,7 @@
 // C12 for recursive normalised views: one-step scale equivariance of the state (x -> a x, a > 0) with an unchanged output.
 // LaguerreRSI: ladder state scales with a, CU/(CU+CD) does not change.  TrendFlex / ReFlex: delay line and x1 scale with a,
 // the leaky mean square with a^2, d/sqrt(ms) does not change.
+use crate::props::c00_affine::*;
 use crate::props::c04_averages::*;
 use crate::props::c12_normalised::*;
 
